@@ -1391,6 +1391,7 @@ pub fn run_c05(r: &Runner) {
     after_blank_run_phase(r, "hygiene", &msg_entry, check_c05);
     pair_phase(r, "hygiene", &msg_entry, check_c05);
     long_target_phase(r, "hygiene", &msg_entry, check_c05);
+    long_field_phase(r, "hygiene", &msg_entry, check_c05);
     literal_sweep(r, "hygiene", check_c05);
     c05_sweeps(r);
     c05_lanes(r, if r.quick() { 70 } else { 140 });
